@@ -43,7 +43,12 @@ class Population:
         return [Individual(genome, self.problem, fitness) for genome, fitness in zip(self.genomes, self.fitnesses)]
 
     def topk(self, k: int) -> "Population":
-        topk_indices = np.argsort(self.fitnesses)[-k:] if self.problem.maximize else np.argsort(self.fitnesses)[:k]
+        # [-k:] would keep everything for k == 0.
+        topk_indices = (
+            np.argsort(self.fitnesses)[max(self.size - k, 0) :]  # noqa: E203
+            if self.problem.maximize
+            else np.argsort(self.fitnesses)[:k]
+        )
         return Population(self.genomes[topk_indices], self.fitnesses[topk_indices], self.problem)
 
     def merge(self, other: "Population") -> "Population":
